@@ -248,7 +248,7 @@ def shard(seed: int, shard_i: int, n: int, opts: dict) -> dict:
     # number of other schemas have been generated (module-level state, shared output objects)
     n_hist = 0
     for j, (c, out) in enumerate(zip(cases, reals)):
-        if "ok" not in out or n_hist >= 3:
+        if "ok" not in out or n_hist >= 1:      # one minimised history per shard (each candidate costs a fresh interpreter)
             continue
         wire.set_classes(c["classes"])
         _, out2, _ = real_schema(c)
@@ -335,7 +335,7 @@ def in_subprocess(case: dict) -> bool:
 def minimise_history(c: dict, later: List[dict]) -> List[dict]:
     """a short list of later cases after which the schema of `c` changes (each candidate is tried in a
     fresh interpreter, since the state that leaks is the interpreter's)"""
-    for h in later[:60]:
+    for h in later[:25]:
         if in_subprocess(dict(c, history=[h])):
             return [h]
     lo = list(later)
